@@ -8,6 +8,8 @@ package bitstr
 // ---- C09 / C19: bit strings ----
 
 //@ func New returns (r)
+//@   witness-gen toBit = int32(r.Intn(8*len(s) + 1))
+//@   witness-gen fromBit = int32(r.Intn(int(toBit) + 1))
 //@   requires 0 <= fromBit && fromBit <= toBit && int(toBit) <= 8 * len(s) && len(s) < 1<<26
 //@   ensures validBS(r) && nbits(r) == int(toBit) - 8 * int(fromBit >> 3)
 //@   ensures forall j int :: 0 <= j && j < nbits(r) ==> bbit(r, j) == uint8(sbit(s, int32(8 * int(fromBit >> 3) + j)))
@@ -18,6 +20,7 @@ package bitstr
 //@   use rbits_of_mask(8)
 
 //@ func Len returns (r)
+//@   witness-gen bs = New(string(bs), 0, int32(r.Intn(8*len(bs)+1)))
 //@   requires validBS(bs)
 //@   ensures int(r) == nbits(bs)
 //@   assigns nothing
@@ -26,6 +29,8 @@ package bitstr
 // Cmp: the sign of the lexicographic comparison of the two bit strings (lexEnc: decided by the
 // first differing bit fdEnc, a proper prefix sorting first).
 //@ func Cmp returns (r)
+//@   witness-gen a = New(string(a), 0, int32(r.Intn(8*len(a)+1)))
+//@   witness-gen b = func() []byte { if r.Intn(3) == 0 { return New(string(a[:len(a)-1]), 0, int32(r.Intn(8*(len(a)-1)+1))) }; return New(string(b), 0, int32(r.Intn(8*len(b)+1))) }()
 //@   requires validBS(a) && validBS(b)
 //@   ensures r == lexEnc(a, b)
 //@   assigns nothing
@@ -48,6 +53,7 @@ package bitstr
 // CmpUpto: sign of comparing the first nbits(b) bits of the plain bytes a (all of a when
 // shorter) with b's bit string (lexUpto, decided by the first differing bit fdUpto).
 //@ func CmpUpto returns (r)
+//@   witness-gen b = func() []byte { if r.Intn(2) == 0 && len(a) > 0 { return New(string(a), 0, int32(r.Intn(8*len(a)+1))) }; return New(string(b), 0, int32(r.Intn(8*len(b)+1))) }()
 //@   requires validBS(b) && len(a) < 1<<27
 //@   ensures r == lexUpto(a, b)
 //@   assigns nothing
@@ -58,6 +64,7 @@ package bitstr
 //@   use byte_lt_bit(a[len(b)-2] & b[len(b)-1], b[len(b)-2])
 
 //@ func StrCmpUpto returns (r)
+//@   witness-gen b = func() []byte { if r.Intn(2) == 0 && len(a) > 0 { return New(a, 0, int32(r.Intn(8*len(a)+1))) }; return New(string(b), 0, int32(r.Intn(8*len(b)+1))) }()
 //@   requires validBS(b) && len(a) < 1<<27
 //@   ensures r == lexUpto(a, b)
 //@   assigns nothing
